@@ -2,6 +2,7 @@ package sim
 
 import (
 	"fmt"
+	"time"
 )
 
 var validStates = map[string]bool{"INIT": true, "CANDIDATE": true, "LEADER": true, "FOLLOWER": true, "DEMOTED": true, "STOPPED": true}
@@ -98,6 +99,85 @@ func OracleC18(tr *Trace) Verdict {
 								Msg: fmt.Sprintf("%s at %v leads; its latest successful write that was answered in time is rev %d (%s answered at %v) but Status().Revision=%d", who, s.T, latest.Ver.Rev, latest.Kind, latest.ReturnT, si.Revision)})
 						}
 					}
+				}
+			}
+		}
+	}
+	// follower convergence: a started follower that has known some leader converges to the id in the live
+	// record. Watch events may be lost (the 500ms periodic check is the fallback); the instance itself must be
+	// able to reach the store. W = two periodic checks + the largest watch delay + two round trips.
+	{
+		var maxWD time.Duration
+		for _, in := range p.Instances {
+			for _, d := range in.WatchDelay {
+				maxWD = max(maxWD, d)
+			}
+		}
+		W := time.Second + maxWD + 2*p.MaxRTT() + time.Millisecond
+		knew := map[int]bool{}
+		ownsCache := map[string][]*Own{}
+		for _, s := range tr.Snaps {
+			if s.T > tr.End {
+				break
+			}
+			for _, si := range s.Insts {
+				if si.LeaderID != "" {
+					knew[si.Obj] = true
+				}
+				if !si.Started || si.InStop || si.IsLeader || !knew[si.Obj] || p.instFaulted(si.Inst) {
+					continue
+				}
+				key := p.Instances[si.Inst].Group
+				if ownsCache[key] == nil {
+					ownsCache[key] = tr.Ownership(key)
+				}
+				// the live record has named the same id, decodably, for at least W, and the follower has been
+				// started (and not leader) for at least W
+				// who the record has named over time: segments (from, id), id "" = vacant or undecodable
+				var since time.Duration = -1
+				id := ""
+				setName := func(at time.Duration, name string) {
+					if name != id || since < 0 {
+						since, id = at, name
+					}
+				}
+				for _, o := range ownsCache[key] {
+					if o.FromT > s.T {
+						break
+					}
+					name := ""
+					if lv, ok := DecodeLib(o.Ver.Value); o.Live() && ok {
+						name = lv.ID
+					}
+					setName(o.FromT, name)
+					if o.Expired && o.ToT <= s.T {
+						setName(o.ToT, "")
+					}
+				}
+				if id == "" {
+					continue
+				}
+				if since < 0 || s.T-since < W {
+					continue
+				}
+				followerSince := time.Duration(-1)
+				for _, a := range tr.APIs {
+					if a.Obj == si.Obj && a.Call == "Start" && a.Err == "" && a.RetT <= s.T {
+						followerSince = a.RetT
+					}
+				}
+				for _, c := range claims {
+					if c.Obj == si.Obj && c.ToSeq >= 0 && c.ToT <= s.T && c.ToT > followerSince {
+						followerSince = c.ToT
+					}
+				}
+				if followerSince < 0 || s.T-followerSince < W {
+					continue
+				}
+				v.Classes = append(v.Classes, "follower-convergence-judged")
+				if si.StLeaderID != id {
+					add(Viol{At: s.T, Sig: "C18 follower-leaderid-not-converged",
+						Msg: fmt.Sprintf("%s#%d at %v: a follower since %v that can reach the store; the live record has named %q since %v, yet Status().LeaderID=%q (bound %v)", tr.ID(si.Inst), si.Obj, s.T, followerSince, id, since, si.StLeaderID, W)})
 				}
 			}
 		}
